@@ -455,4 +455,233 @@ Proof.
         apply in_map_iff in Hin as (u & Hu & Hin). rewrite <- Hu. now apply V.
 Qed.
 
+(* ---------- a recur pass of the root over leaves and groups ---------- *)
+
+Definition it_deed (it : aitem T) : deed T :=
+  match it with ALeaf v => lv_deed v | AGroup n _ re _ => DDeed n re end.
+Definition it_ok s (it : aitem T) : Prop :=
+  match it with
+  | ALeaf v => lv_ok s v
+  | AGroup n npc _ kids =>
+    get_gen s n = GSusp npc /\ deeds (get_sched s n) = map lv_deed kids /\ Forall (lv_ok s) kids
+  end.
+Definition it_ids (it : aitem T) : list id :=
+  match it with ALeaf v => [lv_id v] | AGroup n _ _ kids => n :: map lv_id kids end.
+Definition its_ids (its : list (aitem T)) : list id := flat_map it_ids its.
+Definition it_wf (D : amap (fdef T)) (it : aitem T) : Prop :=
+  match it with
+  | ALeaf v => leaf_in D (v_leaf v) /\ In (lv_id v) vis
+  | AGroup n _ _ kids =>
+    ~ In n vis /\ (exists kids0, get D n = Some (FNest z0 false kids0)) /\
+    Forall (fun v => leaf_in D (v_leaf v)) kids /\ Forall (fun v => In (lv_id v) vis) kids
+  end.
+
+Lemma it_ok_frame Xg Xs s s' it :
+  frame Xg Xs s s' -> (forall x, In x (it_ids it) -> ~ In x Xg /\ ~ In x Xs) -> it_ok s it -> it_ok s' it.
+Proof.
+  intros F Hn. destruct it as [v|n npc re kids]; cbn [it_ok it_ids] in *.
+  - apply (lv_ok_frame _ _ _ _ _ F). apply Hn. now left.
+  - intros (G & Dq & K). destruct (Hn n (or_introl eq_refl)) as [Ng Ns].
+    pose proof F as (_ & _ & FG & FS).
+    split; [now rewrite FG|]. split; [now rewrite FS|].
+    eapply lvs_ok_frame; [exact F| |exact K].
+    intros v Hv. apply Hn. right. now apply in_map.
+Qed.
+
+Lemma its_ok_frame Xg Xs s s' U :
+  frame Xg Xs s s' -> (forall x, In x (its_ids U) -> ~ In x Xg /\ ~ In x Xs) ->
+  Forall (it_ok s) U -> Forall (it_ok s') U.
+Proof.
+  intros F Hn L. rewrite Forall_forall in *. intros it Hit.
+  eapply it_ok_frame; [exact F| |now apply L].
+  intros x Hx. apply Hn. unfold its_ids. apply in_flat_map. now exists it.
+Qed.
+
+Lemma NoDup_app_disj {A} (l1 l2 : list A) : NoDup (l1 ++ l2) -> forall x, In x l1 -> ~ In x l2.
+Proof.
+  induction l1 as [|a l1 IH]; intros N x Hx; [destruct Hx|].
+  cbn [app] in N. apply NoDup_cons_iff in N as [Na N]. destruct Hx as [->|Hx].
+  - intro Hx2. apply Na. apply in_or_app. now right.
+  - now apply IH.
+Qed.
+
+Lemma NoDup_app_r {A} (l1 l2 : list A) : NoDup (l1 ++ l2) -> NoDup l2.
+Proof. induction l1 as [|a l1 IH]; cbn [app]; intro N; [assumption|]. apply NoDup_cons_iff in N as [_ N]. auto. Qed.
+Lemma NoDup_app_l {A} (l1 l2 : list A) : NoDup (l1 ++ l2) -> NoDup l1.
+Proof.
+  induction l1 as [|a l1 IH]; cbn [app]; intro N; [constructor|]. apply NoDup_cons_iff in N as [Na N].
+  constructor; [|auto]. intro. apply Na. apply in_or_app. now left.
+Qed.
+
+Lemma its_wf_defs D D' U : D' = D -> Forall (it_wf D) U -> Forall (it_wf D') U.
+Proof. now intros ->. Qed.
+
+Ltac incl_tac :=
+  let x := fresh "x" in let Hx := fresh "Hx" in
+  intros x Hx; unfold its_ids in Hx |- *; cbn [flat_map it_ids In app] in Hx |- *;
+  rewrite ?in_app_iff in Hx; rewrite ?in_app_iff; cbn [In] in Hx |- *; tauto.
+
+Lemma its_loop : forall (U : list (aitem T)) f s P o s' r,
+  recur_loop tk f s 0%N = (s', r) -> oof s' = false ->
+  deeds (get_sched s 0%N) = map it_deed U ++ DMark :: P ->
+  Forall (it_ok s) U -> Forall (it_wf (defs s)) U -> NoDup (0%N :: its_ids U) ->
+  out_ok s o ->
+  exists U' o', its_pass tk (tabs z0) (tyme s) U o = (U', o') /\
+    r = GReturn /\ deeds (get_sched s' 0%N) = P ++ map it_deed U' /\
+    Forall (it_ok s') U' /\ out_ok s' o' /\ frame (its_ids U) (0%N :: its_ids U) s s'.
+Proof.
+  induction U as [|it U IH]; intros f s P o s' r E O Dq G W ND OK.
+  - cbn [map app] in Dq.
+    destruct f as [|f]; [rewrite recur_loop_O in E; inversion E; subst; discriminate|].
+    rewrite recur_loop_S, Dq in E. inversion E; subst s' r.
+    exists [], o. split; [reflexivity|]. split; [reflexivity|].
+    split; [rewrite deeds_set_deeds_same; now rewrite app_nil_r|].
+    split; [constructor|]. split; [now apply ok_deeds|].
+    apply frame_deeds; [now left|apply frame_refl].
+  - cbn [map app] in Dq.
+    destruct f as [|f]; [rewrite recur_loop_O in E; inversion E; subst; discriminate|].
+    apply Forall_cons_iff in G as [Gi GU]. apply Forall_cons_iff in W as [Wi WU].
+    apply NoDup_cons_iff in ND as [N0 ND]. unfold its_ids in ND, N0. cbn [flat_map] in ND, N0. fold (its_ids U) in ND, N0.
+    pose proof (NoDup_app_disj _ _ ND) as Disj.
+    assert (NDU : NoDup (0%N :: its_ids U)).
+    { constructor; [intro; apply N0; apply in_or_app; now right|]. eapply NoDup_app_r; exact ND. }
+    destruct it as [v|n npc re kids].
+    + (* a root leaf *)
+      cbn [it_deed it_ok it_wf it_ids] in *. destruct Wi as [Dv Vv].
+      destruct (loop_leaf_step f s 0%N v _ s' r o E O Dq Gi Dv Vv OK)
+        as (s2 & ov & o1 & Hst & E2 & Dq2 & Hov & OK2 & F2).
+      assert (FU : Forall (it_ok s2) U).
+      { eapply its_ok_frame; [exact F2| |exact GU].
+        intros x Hx. split; intros [Heq|[]]; subst x.
+        - apply (Disj (lv_id v)); [now left|exact Hx].
+        - apply N0. apply in_or_app. now right. }
+      assert (WU2 : Forall (it_wf (defs s2)) U) by (destruct F2 as (_ & -> & _); exact WU).
+      assert (T2 : tyme s2 = tyme s) by (destruct F2 as (-> & _); reflexivity).
+      rewrite <- app_assoc in Dq2. cbn [app] in Dq2.
+      destruct (IH f s2 _ o1 s' r E2 O Dq2 FU WU2 NDU OK2) as (U' & o' & Hp & -> & Dq' & G' & OK' & F').
+      rewrite T2 in Hp. change (sched_tock tk s 0%N) with tk in Hst.
+      assert (FF : frame (lv_id v :: its_ids U) (0%N :: lv_id v :: its_ids U) s s').
+      { eapply frame_trans.
+        - eapply frame_weaken; [| |exact F2]; incl_tac.
+        - eapply frame_weaken; [| |exact F']; incl_tac. }
+      cbn [its_pass map flat_map it_ids app].
+      destruct (tleb (v_re v) (tyme s)).
+      * rewrite Hst, Hp. destruct ov as [v'|].
+        -- destruct Hov as [Gv' Lv'].
+           eexists _, _. split; [reflexivity|]. split; [reflexivity|].
+           split; [rewrite Dq', <- app_assoc; reflexivity|].
+           split; [|split; assumption].
+           constructor; [|exact G']. cbn [it_ok].
+           eapply lv_ok_frame; [exact F'| |exact Gv'].
+           unfold lv_id. rewrite Lv'. apply (Disj (lv_id v)). now left.
+        -- eexists _, _. split; [reflexivity|]. split; [reflexivity|].
+           split; [rewrite Dq', app_nil_r; reflexivity|]. split; [exact G'|split; assumption].
+      * inversion Hst; subst ov o1. rewrite Hp. destruct Hov as [Gv' _].
+        eexists _, _. split; [reflexivity|]. split; [reflexivity|].
+        split; [rewrite Dq', <- app_assoc; reflexivity|].
+        split; [|split; assumption].
+        constructor; [|exact G']. cbn [it_ok].
+        eapply lv_ok_frame; [exact F'| |exact Gv']. apply (Disj (lv_id v)). now left.
+    + (* a group *)
+      cbn [it_deed it_ok it_wf it_ids] in *.
+      destruct Gi as (Gn & Dqn & Kn). destruct Wi as (NV & [kids0 Dn] & DK & VK).
+      assert (Nn0 : n <> 0%N) by (intro; subst n; apply N0; now left).
+      assert (NDk : NoDup (map lv_id kids)).
+      { apply NoDup_app_l in ND. now apply NoDup_cons_iff in ND as [_ ND]. }
+      rewrite recur_loop_S, Dq in E. cbv zeta in E.
+      set (rest := map it_deed U ++ DMark :: P) in *.
+      change (tyme (set_deeds s 0%N rest)) with (tyme s) in E.
+      cbn [its_pass map flat_map it_ids app].
+      destruct (tleb re (tyme s)) eqn:Due.
+      * destruct (gen_send tk f (set_deeds s 0%N rest) n) as [s2 g] eqn:Es.
+        assert (O2 : oof s2 = false).
+        { destruct g; try (inversion E; subst; assumption); apply oof_recur_loop in E; assumption. }
+        assert (F0 : frame [] [0%N] s (set_deeds s 0%N rest)) by (apply frame_deeds; [now left|apply frame_refl]).
+        assert (Dqn0 : deeds (get_sched (set_deeds s 0%N rest) n) = map lv_deed kids)
+          by (rewrite sched_set_deeds_other by exact Nn0; exact Dqn).
+        destruct (group_send f (set_deeds s 0%N rest) n npc kids0 kids o s2 g Es O2 Gn Dn Dqn0 Kn DK NDk VK NV Nn0
+                    (ok_deeds _ _ _ _ OK)) as (kids' & o1 & Hk & OK2 & F2 & Hcase).
+        change (tyme (set_deeds s 0%N rest)) with (tyme s) in Hk.
+        assert (Hsub : forall x, In x (map lv_id kids') -> In x (map lv_id kids)).
+        { intros x. rewrite !lv_id_map. apply subl_In. apply subl_map. eapply lvs_pass_subl; exact Hk. }
+        assert (F02 : frame (n :: map lv_id kids) [0%N; n] s s2).
+        { eapply frame_trans; [eapply frame_weaken; [| |exact F0]; incl_tac
+                              |eapply frame_weaken; [| |exact F2]; incl_tac]. }
+        assert (Dq0 : deeds (get_sched s2 0%N) = rest).
+        { destruct F2 as (_ & _ & _ & FS). rewrite FS; [apply deeds_set_deeds_same|].
+          intros [Heq|[]]. now apply Nn0. }
+        assert (HU : forall x, In x (its_ids U) -> ~ In x (n :: map lv_id kids) /\ ~ In x [0%N; n]).
+        { intros x Hx. split.
+          - intro Hin. apply (Disj x Hin Hx).
+          - intros [Heq|[Heq|[]]]; subst x.
+            + apply N0, in_or_app; now right.
+            + apply (Disj n); [now left|exact Hx]. }
+        assert (FU : Forall (it_ok s2) U) by (eapply its_ok_frame; [exact F02|exact HU|exact GU]).
+        assert (WU2 : Forall (it_wf (defs s2)) U) by (destruct F02 as (_ & -> & _); exact WU).
+        assert (T2 : tyme s2 = tyme s) by (destruct F02 as (-> & _); reflexivity).
+        rewrite Hk.
+        destruct kids' as [|v' kids''].
+        -- destruct Hcase as [-> Gd]. unfold rest in Dq0.
+           destruct (IH f s2 P o1 s' r E O Dq0 FU WU2 NDU OK2) as (U' & o' & Hp & -> & Dq' & G' & OK' & F').
+           rewrite T2 in Hp. rewrite Hp.
+           eexists _, _. split; [reflexivity|]. split; [reflexivity|]. split; [exact Dq'|].
+           split; [exact G'|]. split; [exact OK'|].
+           eapply frame_trans; [eapply frame_weaken; [| |exact F02]; incl_tac
+                               |eapply frame_weaken; [| |exact F']; incl_tac].
+        -- destruct Hcase as (-> & Gs & Dqs & Ks). cbv beta iota zeta in E.
+           change (sched_tock tk s2 0%N) with tk in E. rewrite T2 in E.
+           set (re' := if tfalsy (tabs z0) then tadd (tyme s) tk else tadd re (tabs z0)) in *.
+           set (s3 := set_deeds s2 0%N (deeds (get_sched s2 0%N) ++ [DDeed n re'])) in *.
+           assert (F3 : frame [] [0%N] s2 s3) by (apply frame_deeds; [now left|apply frame_refl]).
+           assert (Dq3 : deeds (get_sched s3 0%N) = map it_deed U ++ DMark :: (P ++ [DDeed n re'])).
+           { unfold s3. rewrite deeds_set_deeds_same, Dq0. unfold rest. now rewrite <- app_assoc. }
+           assert (FU3 : Forall (it_ok s3) U).
+           { eapply its_ok_frame; [exact F3| |exact FU]. intros x Hx. split; [intros []|].
+             intros [Heq|[]]. subst x. apply N0, in_or_app; now right. }
+           destruct (IH f s3 _ o1 s' r E O Dq3 FU3 WU2 NDU (ok_deeds _ _ _ _ OK2))
+             as (U' & o' & Hp & -> & Dq' & G' & OK' & F').
+           change (tyme s3) with (tyme s2) in Hp. rewrite T2 in Hp. rewrite Hp.
+           eexists _, _. split; [reflexivity|]. split; [reflexivity|].
+           split; [rewrite Dq', <- app_assoc; reflexivity|].
+           split; [|split; [exact OK'|]].
+           ++ constructor; [|exact G'].
+              eapply it_ok_frame; [exact F'| |].
+              ** intros x Hx. cbn [it_ids] in Hx.
+                 assert (Hin : In x (n :: map lv_id kids)).
+                 { destruct Hx as [<-|Hx]; [now left|right; now apply Hsub]. }
+                 split; [exact (Disj x Hin)|].
+                 intros [Heq|Hx2]; [|exact (Disj x Hin Hx2)].
+                 subst x. apply N0, in_or_app. now left.
+              ** cbn [it_ok]. split; [exact Gs|]. split.
+                 --- unfold s3. rewrite sched_set_deeds_other by exact Nn0. exact Dqs.
+                 --- exact Ks.
+           ++ eapply frame_trans; [eapply frame_weaken; [| |exact F02]; incl_tac|].
+              eapply frame_trans; [eapply frame_weaken; [| |exact F3]; incl_tac|].
+              eapply frame_weaken; [| |exact F']; incl_tac.
+      * (* not due: rotated to the back untouched *)
+        set (s3 := set_deeds (set_deeds s 0%N rest) 0%N (rest ++ [DDeed n re])) in *.
+        assert (F3 : frame [] [0%N] s s3).
+        { unfold s3. apply frame_deeds; [now left|]. apply frame_deeds; [now left|]. apply frame_refl. }
+        assert (Dq3 : deeds (get_sched s3 0%N) = map it_deed U ++ DMark :: (P ++ [DDeed n re])).
+        { unfold s3. rewrite deeds_set_deeds_same. unfold rest. now rewrite <- app_assoc. }
+        assert (H0 : forall x, In x (its_ids U) -> ~ In x [] /\ ~ In x [0%N]).
+        { intros x Hx. split; [intros []|]. intros [Heq|[]]. subst x. apply N0, in_or_app; now right. }
+        assert (FU3 : Forall (it_ok s3) U) by (eapply its_ok_frame; [exact F3|exact H0|exact GU]).
+        destruct (IH f s3 _ o s' r E O Dq3 FU3 WU NDU (ok_deeds _ _ _ _ (ok_deeds _ _ _ _ OK)))
+          as (U' & o' & Hp & -> & Dq' & G' & OK' & F').
+        change (tyme s3) with (tyme s) in Hp. rewrite Hp.
+        eexists _, _. split; [reflexivity|]. split; [reflexivity|].
+        split; [rewrite Dq', <- app_assoc; reflexivity|].
+        split; [|split; [exact OK'|]].
+        -- constructor; [|exact G'].
+           eapply it_ok_frame; [exact F'| |].
+           ++ intros x Hx. cbn [it_ids] in Hx. split; [exact (Disj x Hx)|].
+              intros [Heq|Hx2]; [|exact (Disj x Hx Hx2)].
+              subst x. apply N0, in_or_app. now left.
+           ++ eapply (it_ok_frame [] [0%N] s s3 (AGroup n npc re kids)); [exact F3| |cbn [it_ok]; auto].
+              intros x Hx. split; [intros []|]. intros [Heq|[]]. subst x. apply N0, in_or_app. now left.
+        -- eapply frame_trans; [eapply frame_weaken; [| |exact F3]; incl_tac|].
+           eapply frame_weaken; [| |exact F']; incl_tac.
+Qed.
+
 End Run.
